@@ -752,6 +752,19 @@ async fn faults(r: &mut Rng) -> (String, String) {
             let eb = if p.mux_b.is_finished() { (&mut p.mux_b).now_or_never().map(|r| format!("{r:?}")) } else { None };
             return (sig, format!("FAIL: C06 an idle healthy connection was torn down (timeouts {:?} / {:?}; dispatchers {ea:?} {eb:?}; after {:?})", timeout, cb_timeout, start.elapsed()));
         }
+        // the hypothesis of C06_idle_healthy_forever (gaps_ok): each endpoint hands a message to the transport at least
+        // once per ping interval of the timeout its PEER announced (whole milliseconds, at least one, halved);
+        // Tokio's timers add up to one millisecond
+        for (name, link, need) in [("A", &p.net.a2b, cb_timeout), ("B", &p.net.b2a, Some(timeout))] {
+            if let Some(t) = need {
+                let announced = Duration::from_millis((t.as_nanos() / 1_000_000).max(1) as u64);
+                let allowed = announced / 2 + Duration::from_millis(1);
+                let pause = link.longest_pause();
+                if pause > allowed {
+                    return (sig, format!("FAIL: C06 endpoint {name} left a healthy link silent for {pause:?}: its peer announced the timeout {t:?} and needs a message every {:?}", announced / 2));
+                }
+            }
+        }
         // and it still works
         let ((mut tx, _), (_, mut rx)) = conn::open_port(&mut p).await;
         let _ = tx.try_send(&Bytes::from_static(b"x"));
